@@ -124,3 +124,44 @@ Proof.
   intros HO NE. unfold wq_allocate. rewrite HO. replace (Nat.eqb o cid) with false by (symmetry; apply Nat.eqb_neq; exact NE).
   cbn [negb]. rewrite orb_true_r. reflexivity.
 Qed.
+
+(* ------------------------------------------------------------------ configurations WITH write handlers *)
+Lemma judge_core_ok c a o x r : (sat_cond c x -> sat c x r) -> judge_core c a o x r = Ok.
+Proof.
+  intros H. unfold judge_core, judge. destruct o as [cid pdu n|cid n|cid e p|cid|by_uuid kd g|g|g data]; try (destruct r; reflexivity).
+  - destruct r as [resp| | | | |]; try reflexivity. destruct x as [|kind exp g rsp|p|g v wl]; try reflexivity.
+    destruct (Nat.eqb kind k_read) eqn:EK.
+    + apply Nat.eqb_eq in EK. subst kind. destruct (list_eqb resp rsp); reflexivity.
+    + assert (S : sat c (XResp kind exp g rsp) (OBytes resp)) by (apply H; cbn [sat_cond]; intros X; congruence).
+      cbn [sat] in S. inversion S; subst. rewrite list_eqb_refl. reflexivity.
+  - destruct r as [| | | | |v wl]; try reflexivity. destruct x as [|kind exp g0 rsp|p|g0 v' wl']; try reflexivity.
+    destruct (H I) as (lg & E & _). inversion E; subst. rewrite list_eqb_refl. cbn [negb]. destruct lg as [[[? ?] ?]|]; reflexivity.
+Qed.
+
+(* every configuration - write handlers or not -: all clauses but the handler call counters *)
+Theorem monitor_core_sound c ops : monitor_core c (srv_run c (srv_init c) ops) = None.
+Proof.
+  unfold monitor_core, minit. apply (monitor_sound_with judge_core (fun _ => true)).
+  - intros a o x r _ H. apply judge_core_ok; assumption.
+  - apply sim_init.
+  - apply forallb_true.
+Qed.
+
+(* ... and what the permission probe of Prepare Write does to a value behind a write handler, exactly: one
+   call of the handler with an empty write at offset 0 (counted as a write and as an empty write), which the
+   harness' array handler accepts; no value, no connection data and nothing of the queue changes *)
+Theorem probe_calls_handler_once c st cid k s ch g cci size hrd blob st' rc :
+  get_conn st cid = Some k -> c_value ch = VHandler size hrd true blob ->
+  security_check (char_requires_encryption c s ch) (encrypted k) (pairing k) = Success ->
+  access_check_write c st cid (AValue s ch g cci) = Some (st', rc) ->
+  rc = Success /\ vals st' = vals st /\ conns st' = conns st /\ wq_owner st' = wq_owner st /\ wq_elems st' = wq_elems st
+  /\ hlogs st' = upd (hlogs st) g (let '(r, w, e) := nth g (hlogs st) (0, 0, 0) in (r, w + 1, e + 1)).
+Proof.
+  intros G HV HS. unfold access_check_write, access_write. rewrite G. unfold value_write. cbn [fst snd]. rewrite HS, HV.
+  cbn [negb andb]. replace (negb blob && negb (0 =? 0)) with false by (rewrite andb_false_r; reflexivity).
+  rewrite mem_write_splice.
+  replace (len (get_val st g) <? 0) with false by (symmetry; apply N.ltb_ge; lia).
+  replace (len (get_val st g) <? 0 + len (@nil N)) with false by (symmetry; apply N.ltb_ge; unfold len; cbn [length]; lia).
+  intros H. inv H. repeat split; try reflexivity.
+  cbn [vals set_vals log_call set_hlogs]. unfold get_val. rewrite splice_nothing. apply upd_same.
+Qed.
